@@ -33,6 +33,13 @@ impl InputPlugin for InjectInputPlugin {
                 )));
             }
         }
+        // indexing a serde_json::Value by key panics unless it is an object (or null, which
+        // becomes an object)
+        if !(input.is_object() || input.is_null()) {
+            return Err(InputPluginError::UnexpectedQueryStructure(String::from(
+                "query is not a JSON object",
+            )));
+        }
         input[self.key.clone()] = self.value.clone();
         Ok(())
     }
